@@ -68,8 +68,9 @@ type jcase struct {
 	// concurrent histories only (information; a replay re-executes Ops sequentially)
 	Intervals   []jinterval `json:"concurrent_intervals,omitempty"`
 	Note        string      `json:"note,omitempty"`
-	ConcPrefix  []jop       `json:"concurrent_program_prefix,omitempty"`  // a replay re-executes this program
-	ConcThreads [][]jop     `json:"concurrent_program_threads,omitempty"` // (12 schedules) instead of Ops
+	ConcPrefix  []jop       `json:"concurrent_program_prefix,omitempty"`          // a replay re-executes this program
+	ConcThreads [][]jop     `json:"concurrent_program_threads,omitempty"`         // (many schedules) instead of Ops
+	FinalObs    []jop       `json:"final_observation_after_quiescence,omitempty"` // non-linearisable executions only
 }
 
 func toValue(p jpoint) tsm1.Value {
@@ -788,10 +789,13 @@ func overlapOf(ops []cop) (n int) {
 
 // doConc executes the concurrent program `execs` times (different schedules), checks EVERY
 // execution for linearisability, and emits the linearisation of the execution with the most
-// real-time overlap.  The program fails if >= 3 executions are not linearisable (a single
-// non-reproducible miss is counted in the evidence, not reported: see checks/C09.json).
+// real-time overlap.  The program fails if >= 3 (stress programs: >= 2) executions are not
+// linearisable (a non-reproducible miss is counted in the evidence, not reported: see checks/C09.json).
 func doConc(w *vh.W, max uint64, prefix []jop, threads [][]jop, barrier bool, execs int) {
-	const tolerated = 2
+	tolerated := 2 // random programs: 12 schedules
+	if execs >= 100 {
+		tolerated = 1 // stress programs (no known racy combination inside): two misses are reported
+	}
 	var best, bad *execution
 	fails := 0
 	for a := 0; a < execs; a++ {
@@ -846,6 +850,7 @@ func doConc(w *vh.W, max uint64, prefix []jop, threads [][]jop, barrier bool, ex
 		for _, o := range e.ops {
 			all = append(all, o.op)
 		}
+		c.FinalObs = e.fin
 		c.Note = "NO linearisation of the concurrent part (see concurrent_intervals) explains the responses and the final state; ops = sequential prefix only"
 	}
 	idx := w.Add(caseTerm(c), c, e.overlap > 0, shapeSig(all))
@@ -1230,7 +1235,7 @@ func stressPrograms(g *gen) (out [][][]jop) {
 
 func main() {
 	w := vh.New("C09", "From Verif Require Import Base.Prelude Model.C09.\nLocal Open Scope Z_scope.", "case", "check")
-	w.Rule = "hand-picked regression histories first; then random histories on the real tsm1.Cache over keys a/bb/ccc (+ absent zz), timestamps 1..6, value types f/i/s (b,u rarely), maxSize in {0,10,40,66,100,200,1000}: 5-18 ops of WriteMulti (1-3 keys x 0-3 points, duplicates and type conflicts frequent, empty and mixed batches rare) / Values / Snapshot / ClearSnapshot(ok) / DeleteRange (boundary-biased ranges incl. MinInt64/MaxInt64, min>max, repeated and absent keys) / Delete / Size / Keys, followed by a full observation (Size, Values of every key, Keys); 3 fixed stress programs (same-key creation race, conflicting-type creation race, snapshot cycle vs writers/reader) under 300 (thorough: 3000) schedules each and every 4th random case is a concurrent history (2-4 goroutines, <= 8 concurrent ops, 12 schedules, engine locking discipline), every execution checked for linearisability, emitted as prefix ++ found linearisation ++ final observation. Non-trivial (seq): >=1 accepted write and >=1 snapshot/clear/delete op; (conc): at least one pair of ops of different goroutines overlapped in real time. Distinct: distinct Gallina terms."
+	w.Rule = "hand-picked regression histories first; then random histories on the real tsm1.Cache over keys a/bb/ccc (+ absent zz), timestamps 1..6, value types f/i/s (b,u rarely), maxSize in {0,10,40,66,100,200,1000}: 5-18 ops of WriteMulti (1-3 keys x 0-3 points, duplicates and type conflicts frequent, empty and mixed batches rare) / Values / Snapshot / ClearSnapshot(ok) / DeleteRange (boundary-biased ranges incl. MinInt64/MaxInt64, min>max, repeated and absent keys) / Delete / Size / Keys, followed by a full observation (Size, Values of every key, Keys); 3 fixed stress programs (same-key creation race, conflicting-type creation race, snapshot cycle vs writers/reader) under 600 (thorough: 3000) schedules each and every 4th random case is a concurrent history (2-4 goroutines, <= 8 concurrent ops, 12 schedules, engine locking discipline), every execution checked for linearisability, emitted as prefix ++ found linearisation ++ final observation. Non-trivial (seq): >=1 accepted write and >=1 snapshot/clear/delete op; (conc): at least one pair of ops of different goroutines overlapped in real time. Distinct: distinct Gallina terms."
 	var rc jcase
 	if w.ReplayCase(&rc) {
 		var rp jprobe
@@ -1256,7 +1261,7 @@ func main() {
 	for _, name := range []string{"init-race", "write-delete-race", "limit-race"} {
 		probe(w, name)
 	}
-	execs := 300
+	execs := 600
 	if w.N >= 5000 {
 		execs = 3000
 	}
